@@ -186,13 +186,14 @@ class DryRunRenamer:
         source_key = Path(os.path.abspath(source_path))
         destination_key = Path(os.path.abspath(destination_path))
         source_exists = (
-            source_path.exists() or source_key in self.created_paths
+            os.path.lexists(source_path) or source_key in self.created_paths
         ) and source_key not in self.removed_paths
         if not source_exists:
             raise FileNotFoundError(f"No such file or directory: {source_path}")
 
         destination_exists = (
-            destination_path.exists() or destination_key in self.created_paths
+            os.path.lexists(destination_path)
+            or destination_key in self.created_paths
         ) and destination_key not in self.removed_paths
         if destination_exists and not override:
             raise FileExistsError(
